@@ -452,6 +452,35 @@ fn strat(_t: Tier) -> BoxedStrategy<Case> {
         .boxed()
 }
 
+fn fuzz_spec(f: &mut FrameSpec) {
+    match f {
+        FrameSpec::Method { idx, args, .. } => {
+            *idx %= N_METHODS as u8;
+            gen::clamp_short(&mut args.s1);
+            gen::clamp_short(&mut args.s2);
+            args.table.clear();
+        }
+        FrameSpec::Header { props, .. } => gen::sanitize_props(props),
+        FrameSpec::Body { len, .. } => *len %= 20_001,
+        FrameSpec::Heartbeat => {}
+    }
+}
+
+fn fuzz_case(mut c: Case) -> Case {
+    c.frames.truncate(14);
+    for f in c.frames.iter_mut() {
+        fuzz_spec(f);
+    }
+    match &mut c.tail {
+        Tail::BadEnd(f) => fuzz_spec(f),
+        Tail::Eof { partial } | Tail::IoErr { partial, .. } => *partial %= 40,
+        _ => {}
+    }
+    c.cuts_a.truncate(12);
+    c.cuts_b.truncate(12);
+    c
+}
+
 pub fn parts() -> Vec<Box<dyn PartDyn>> {
     vec![Box::new(Part::<Case> {
         name: "probe",
@@ -463,5 +492,6 @@ pub fn parts() -> Vec<Box<dyn PartDyn>> {
         enumerate: None,
         shrink_budget: 3000,
         confirm_runs: 1,
+            fuzz: Some(fuzz_case),
     })]
 }
